@@ -1,4 +1,5 @@
 import RocflModel.Lemmas.ScriptLemmas
+import RocflModel.Stage
 /-
   C12 — writes stay inside the repository and never land in another object's root.
 
@@ -59,5 +60,46 @@ theorem C12_not_inside_other_object (objs : List Path) (target o : Path) (h : no
   cases hi : inside o target with
   | false => rfl
   | true => simp [hi, hne] at this
+
+/-! ### the content directory -/
+
+theorem splitSlash_noslash (s : Str) (h : ∀ c ∈ s, c ≠ '/') : splitSlash s = [s] := by
+  induction s with
+  | nil => rfl
+  | cons c cs ih =>
+    have hc : c ≠ '/' := h c (List.mem_cons_self ..)
+    have := ih (fun x hx => h x (List.mem_cons_of_mem _ hx))
+    simp [splitSlash, this, hc]
+
+/-- a content-directory name accepted by `validate_content_dir` is a single ordinary path segment -/
+theorem validContentDir_safe (c : Str) (h : validContentDir c = true) : safeRel c = true ∧ splitSlash c = [c] := by
+  simp only [validContentDir, Bool.not_eq_true', Bool.or_eq_false_iff, List.contains_eq_mem, decide_eq_false_iff_not] at h
+  obtain ⟨⟨⟨h1, h2⟩, h3⟩, h4⟩ := h
+  have hs : splitSlash c = [c] := splitSlash_noslash c (fun x hx he => h4 (he ▸ hx))
+  refine ⟨?_, hs⟩
+  have hne : c ≠ [] := by intro h; simp [h] at h1
+  have hhead : c.head? ≠ some '/' := by
+    cases c with
+    | nil => simp
+    | cons x xs =>
+      simp only [List.head?_cons, ne_eq, Option.some.injEq]
+      intro hx; exact h4 (hx ▸ List.mem_cons_self ..)
+  simp only [safeRel, hs, List.all_cons, List.all_nil, Bool.and_true, Bool.and_eq_true, Bool.not_eq_true', bne_iff_ne, ne_eq]
+  refine ⟨⟨by simpa using hne, by simpa using hhead⟩, ⟨by simpa using hne, ?_⟩, ?_⟩
+  · simpa [dot] using h2
+  · simpa [dotdot] using h3
+
+/-- **a content directory that passes `validate_content_dir` keeps content below the version
+    directory**: joined to any version directory it names exactly the one sub-directory of that name;
+    conversely the names the tamper phase of the check writes into stored inventories are all refused -/
+theorem C12_content_dir_confined (vdir : Path) (c : Str) (h : validContentDir c = true) :
+    resolveJoin vdir c = vdir ++ [c] := by
+  obtain ⟨hs, hsp⟩ := validContentDir_safe c h
+  rw [resolveJoin_safe vdir c hs, hsp]
+
+theorem C12_hostile_content_dirs_refused :
+    validContentDir "../../victim".toList = false ∧ validContentDir "a/b".toList = false ∧
+    validContentDir "..".toList = false ∧ validContentDir ".".toList = false ∧ validContentDir "".toList = false ∧
+    validContentDir "content".toList = true := by decide
 
 end Rocfl.Theorems.C12
